@@ -40,7 +40,9 @@ TIRecover == Step(Ev.op = "Recover" /\ IRecoverTo(Ev.w) /\ res'.ok = Ev.ok /\ IO
 TIReopen  == Step(/\ Ev.op = "Reopen"
                   /\ Reopen(Ev.i)
                   /\ ix.on => Ev.on
-                  /\ ix' = IF Ev.on THEN RunIndexer([ix EXCEPT !.on = TRUE, !.inited = FALSE]) ELSE ix
+                  /\ ix' = IF ~Ev.on THEN ix
+                           ELSE IF Ev.ix.inited THEN RunIndexer([ix EXCEPT !.on = TRUE, !.inited = FALSE])
+                           ELSE [ix EXCEPT !.on = TRUE, !.inited = FALSE]      \* initial indexing still running
                   /\ IObs)
 TIHRead   == Step(/\ Ev.op = "HRead"
                   /\ UNCHANGED ivars
@@ -60,7 +62,21 @@ TIKnownMetaDeleted ==
        /\ Ev.j = Len(chain) /\ Len(chain) + 1 > cfg.maxDiff
        /\ UNCHANGED ivars)
 
+TIIndexRun == Step(Ev.op = "IndexRun" /\ IndexRun(Ev.ix.last) /\ IObs)
+
+(* TODO-KNOWN-FINDING (C18-KF2, spec/state/NOTES.md): a rollback while the initial indexing  *)
+(* has not completed and the index ends just below one of the histories being reverted: the real  *)
+(* indexer (indexIniter.run, shorten branch) compares the index position with the already   *)
+(* shortened target, tries to unindex a history that is not indexed, and the rollback fails  *)
+(* after the disk layer was marked stale; this specification only moves the target.          *)
+TIKnownShorten ==
+  Step(/\ Ev.op = "Recover" /\ ~Ev.ok /\ Ev.kf = "shorten-while-initialising"
+       /\ ix.on /\ ~ix.inited
+       /\ Recoverable(Ev.w)
+       /\ ix.last >= ids[Ev.w] /\ ix.last < disk.id     \* some reverted history a has a - 1 = index position
+       /\ UNCHANGED ivars)
+
 ITraceInit == TraceInit /\ ix = [on |-> FALSE, inited |-> FALSE, last |-> -1, set |-> <<>>]
-ITraceNext == TIKnownMetaDeleted \/ TIReset \/ TIUpdate \/ TICommit \/ TIRecover \/ TIReopen \/ TIHRead
+ITraceNext == TIKnownMetaDeleted \/ TIKnownShorten \/ TIIndexRun \/ TIReset \/ TIUpdate \/ TICommit \/ TIRecover \/ TIReopen \/ TIHRead
 ITraceSpec == ITraceInit /\ [][ITraceNext]_<<ivars, l>>
 =============================================================================
